@@ -8,11 +8,15 @@ package lastgersync
 // scan ever started beyond it (ghost observers on the two calls the loop makes).
 // (scanNext and scanGap are declared with the sync package's contracts)
 
+// lastHead: the head the node reported at the last poll; a scan may not reach beyond it (blocks that do not exist yet
+// would be marked as scanned)
+//@ ghost var lastHead int
 //@ extern (*github.com/agglayer/aggkit/sync.EVMDownloaderImplementation).WaitForNewBlocks@lastgersync.(*downloaderPP).Download (d, ctx, latestSyncedBlock)
-//@   modifies nothing
-//@   ensures result >= latestSyncedBlock && result < 18446744073709551615
+//@   modifies lastHead
+//@   ensures result >= latestSyncedBlock && result < 18446744073709551615 && lastHead == result
 
 //@ extern (*github.com/agglayer/aggkit/sync.EVMDownloaderImplementation).GetEventsByBlockRange@lastgersync.(*downloaderPP).Download (d, ctx, fromBlock, toBlock)
+//@   requires[scan-stays-at-or-below-the-reported-head] fromBlock <= toBlock && toBlock <= lastHead
 //@   modifies scanNext, scanGap
 //@   ensures scanGap == (old(scanGap) || fromBlock > old(scanNext))
 //@   ensures scanNext == ite(toBlock + 1 > old(scanNext) && fromBlock <= old(scanNext), toBlock + 1, old(scanNext))
@@ -22,7 +26,7 @@ package lastgersync
 //@   props C16
 //@   requires d != nil && d.EVMDownloaderImplementation != nil
 //@   requires scanNext == fromBlock && !scanGap
-//@   modifies heap, scanNext, scanGap
+//@   modifies heap, scanNext, scanGap, lastHead
 //@   ensures[no-block-skipped] !scanGap
 //@   loop 0 invariant !scanGap && scanNext == fromBlock && d != nil && d.EVMDownloaderImplementation != nil
 //@   loop 1 invariant !scanGap && d != nil && d.EVMDownloaderImplementation != nil && 0 <= rangeindex + 1
